@@ -49,6 +49,12 @@ def main():
     os.makedirs(os.path.join(WT, "MUTANTS", "m0"), exist_ok=True)     # same relative layout the demos were written for
     dpath = os.path.join(WT, "MUTANTS", "m0", "demo.py")
     shutil.copy(os.path.join(src, "demo.py"), dpath)
+    # demos written in a sub-agent's own worktree may assert that `traits` was imported from THAT path: point it here
+    import re
+    txt = open(dpath).read()
+    txt2 = re.sub(r"/tmp/wt\d+/C\d\d", WT, txt)
+    if txt2 != txt:
+        open(dpath, "w").write(txt2)
     meta = {"property": prop, "name": name, "ran": []}
     rc0, out0 = demo(dpath)
     meta["ran"].append({"cmd": "demo.py on the unchanged tree", "exit": rc0})
